@@ -36,4 +36,52 @@ def writeTypesSkeleton : List Fn := [
             .ret "err" ]
           [] ],
       .ret "nil" ] } ]
+
+def parsePrecedingCommentSkeleton : List Fn := [
+  { name := "generator.parsePrecedingComment", body := [
+      .eff "call newGenqlientDirective(pos)",
+      .ite "pos != nil && pos.Src != nil"
+        [
+          .eff "call strings.NewReplacer(\"\\r\\n\", \"\\n\", \"\\r\", \"\\n\")",
+          .eff "call strings.NewReplacer(\"\\r\\n\", \"\\n\", \"\\r\", \"\\n\").Replace(pos.Src.Input)",
+          .eff "call strings.Split( strings.NewReplacer(\"\\r\\n\", \"\\n\", \"\\r\", \"\\n\").Replace(pos.Src.Input), \"\\n\")",
+          .loop "for i > 0; i--" [
+            .eff "call strings.TrimPrefix(line, \"#\")",
+            .ite "strings.HasPrefix(line, \"# @genqlient\")"
+              [
+                .eff "call parseDirective(trimmed, pos)",
+                .ite "err != nil"
+                  [
+                    .ret "<expr>, nil, err" ]
+                  [],
+                .eff "call directive.add(graphQLDirective, pos)",
+                .ite "err != nil"
+                  [
+                    .ret "<expr>, nil, err" ]
+                  [] ]
+              [
+                .ite "strings.HasPrefix(line, \"#\")"
+                  []
+                  [
+                    .eff "break" ] ] ] ]
+        [],
+      .ite "hasDirective"
+        [
+          .eff "call directive.validate(node, g.schema)",
+          .ite "err != nil"
+            [
+              .ret "<expr>, nil, err" ]
+            [] ]
+        [],
+      .ite "queryOptions != nil"
+        [
+          .eff "call directive.mergeOperationDirective(node, parentIfInputField, queryOptions)",
+          .ite "directive.TypeName != \"\" && directive.Bind != \"\" && directive.Bind != \"-\""
+            [
+              .ret "<expr>, nil, <call>" ]
+            [] ]
+        [],
+      .eff "call reverse(commentLines)",
+      .eff "call strings.Join(commentLines, \"\\n\")",
+      .ret "<call>, <expr>, nil" ] } ]
 end Genq.Extracted
